@@ -30,7 +30,7 @@ try:
     env = dict(os.environ, VERIF_REPO=d)
     for pid in rest:
         r = subprocess.run(["./check", pid] + extra, cwd="/verif", env=env, capture_output=True, text=True)
-        lines = [l for l in r.stdout.splitlines() if l.startswith(("VIOLATION", "INCONCLUSIVE", "KNOWN")) or "RESULT" in l]
+        lines = [l for l in r.stdout.splitlines() if l.startswith(("VIOLATION", "INCONCLUSIVE", "KNOWN")) or "RESULT" in l or "] tier=" in l]
         print(f"== {pid} rc={r.returncode}")
         for l in lines[:6]:
             print("   ", l[:260])
